@@ -1,0 +1,47 @@
+//go:build verif
+
+package cache
+
+import (
+	"crypto/sha256"
+	"encoding/hex"
+
+	"github.com/ExocoreNetwork/exocore/x/oracle/types"
+)
+
+// VerifDump returns a canonical description of the in-memory caches (build tag verif only).
+func (c *Cache) VerifDump() map[string]interface{} {
+	if c == nil {
+		return nil
+	}
+	out := map[string]interface{}{}
+	var msgs []interface{}
+	if c.msg != nil {
+		for _, m := range *c.msg {
+			mi := types.MsgItem(*m)
+			bz, _ := mi.Marshal()
+			msgs = append(msgs, hex.EncodeToString(bz))
+		}
+	}
+	out["msgs"] = msgs
+	if c.validators != nil {
+		vp := map[string]string{}
+		for k, v := range c.validators.validators {
+			if v != nil {
+				vp[k] = v.String()
+			}
+		}
+		out["validators"] = vp
+		out["validatorsUpdate"] = c.validators.update
+	}
+	if c.params != nil {
+		if c.params.params != nil {
+			p := types.Params(*c.params.params)
+			bz, _ := p.Marshal()
+			h := sha256.Sum256(bz)
+			out["params"] = hex.EncodeToString(h[:8])
+		}
+		out["paramsUpdate"] = c.params.update
+	}
+	return out
+}
